@@ -242,6 +242,10 @@ def coq_check(c, obs):
             if how == 'construct': ops.append(f"HConstruct {COQ_CLS[st['cls']]} {src}")
             elif how == 'bits_kw': ops.append(f"HBitsKw {COQ_CLS[st['cls']]} {src}")
             elif how in ('copycopy', 'dotcopy', 'andself', 'orself'): ops.append(f"HCopyCopy {src}")   # s & s / s | s take the `bs is self` shortcut: self.copy()
+            elif how == 'join':
+                # join builds on s = self.__class__(): a store of its own that went through __init__ (flagged for the immutable classes),
+                # then extended in place - the store flow of HNew, not of the object.__new__ derivations
+                ops.append(f"HNew {COQ_CLS[after[-1][0]]} {cbits(after[-1][1])}")
             else:
                 rescls = COQ_CLS[after[-1][0]]
                 ops.append(f"HDerive {rescls} {src} (fun _ => {cbits(after[-1][1])})")
